@@ -34,6 +34,12 @@ fn main() {
         "c14" => vmc::props::c14(tier),
         "c15" => vmc::props::c15(tier),
         "c16" => vmc::props::c16(tier),
+        #[cfg(vls_verif)]
+        "c20" => vmc::concur::main(tier),
+        #[cfg(vls_verif)]
+        "c20-child" => vmc::concur::child(args[3].parse().unwrap(), tier, args[4].parse().unwrap(), args[5].parse().unwrap()),
+        #[cfg(not(vls_verif))]
+        "c20" | "c20-child" => machinery_failure("C20 needs the --cfg vls_verif build"),
         "c17" => vmc::macenum::main(tier),
         "c18" => vmc::keysrel::main(tier),
         x if x.starts_with("dump-") => vmc::props::dump(&x[5..], tier),
